@@ -660,6 +660,7 @@ var guardTable = []guardSpec{
 	{"client", "database", "deferUpdates", "cacheMutex", "", false},
 	{"client", "database", "deferredUpdates", "cacheMutex", "", false},
 	{"client", "database", "monitors", "monitorsMutex", "", false},
+	{"client", "database", "model", "modelMutex", "", false},
 	{"client", "database", "lastTransactionIDs", "lastTransactionIDsMutex", "", true},
 	{"client", "ovsdbClient", "rpcClient", "rpcMutex", "", false},
 	{"client", "ovsdbClient", "connected", "rpcMutex", "", false},
@@ -684,6 +685,9 @@ var l2Exceptions = map[string]string{
 	"(*cache.TableCache).Populate|cache.RowCache.cache":                               "read under the exclusive TableCache.mutex; the only client-side writer path of RowCache.cache is Populate itself",
 	"(*cache.TableCache).Populate2|cache.RowCache.cache":                              "read under the exclusive TableCache.mutex; the only client-side writer path of RowCache.cache is Populate2 itself",
 	"(*cache.TableCache).ApplyCacheUpdate|cache.TableCache.cache":                     "server-side caches only; their table map is never replaced after NewTableCache (no Purge on the server)",
+	"(*client.ovsdbClient).connect|client.database.model":                             "read on the goroutine of the only writer: database.model is replaced by tryEndpoint, which connect() itself calls while its callers hold rpcMutex exclusively",
+	"(*client.ovsdbClient).tryEndpoint|client.database.model":                         "tryEndpoint is the writer; this read follows its own store on the same goroutine",
+	"(*client.ovsdbClient).monitor|client.database.model":                             "only reached while reconnecting (the purge of a single resumed monitor), i.e. from connect() on the writer's goroutine",
 	"(*client.ovsdbClient).handleDisconnectNotification|client.ovsdbClient.rpcClient": "first statement of the goroutine started by connect(): rpcClient can only be rewritten by a later connect, which requires this goroutine to have set it to nil first",
 }
 
